@@ -3,7 +3,7 @@
   Property theorems only (plus non-vacuity examples).  Model: `Model/Render.lean`
   (`iterArray`, `rangeInts`, `getArray`, `forloopObj`, `tablerowObj`, `loopItems`, `renderList`).
 -/
-import LiquidModel.Model.Render
+import LiquidModel.Lemmas.Shape
 namespace Liquid.C05
 open Liquid
 
@@ -137,73 +137,118 @@ theorem C05_tablerow_truthful (i n c : Nat) :
 
 /-! ### visiting order, continue, break -/
 
-/-- **Empty selection.** `loopItems` on nothing renders nothing and changes nothing. -/
-theorem C05_loop_nil (step : V → Nat → Rt → W → RR) (npop i : Nat) (rt : Rt) (w : W) :
-    loopItems step npop [] i rt w = (.ok (), rt, w) := rfl
+/-- **Empty selection.** The loop driver on nothing renders nothing and changes nothing. -/
+theorem C05_loop_nil (step : V → Nat → M (Option Intr)) (i : Nat) (rt : Rt) (w : W) :
+    loopItems step [] i rt w = (.ok (), rt, w) := rfl
 
-/-- **One iteration, no break.** If the body of the element at position `i` succeeds and did not
-request `break`, the pending interrupt (a `continue`, or none) is cleared, the iteration's frames
-are dropped, and the loop goes on with the *next* element at position `i + 1`: `continue` skips
-only the rest of the current iteration. -/
-theorem C05_loop_step (step : V → Nat → Rt → W → RR) (npop i : Nat) (v : V) (r : List V)
-    (rt rt' : Rt) (w w' : W)
-    (hstep : step v i rt w = (.ok (), rt', w')) (hnb : rt'.regs.interrupt ≠ some .brk) :
-    loopItems step npop (v :: r) i rt w =
-      loopItems step npop r (i + 1)
-        { (rt'.setInterrupt none) with layers := (rt'.setInterrupt none).layers.drop npop } w' := by
-  simp [loopItems, hstep, hnb]
+/-- **One iteration, no break.** If the body for the element at position `i` succeeds and the
+interrupt it consumed was not `break` (i.e. none, or a `continue`), the loop goes on with the
+*next* element at position `i + 1`: `continue` skips only the rest of the current iteration. -/
+theorem C05_loop_step (step : V → Nat → M (Option Intr)) (i : Nat) (v : V) (r : List V)
+    (rt rt' : Rt) (w w' : W) (intr : Option Intr)
+    (hstep : step v i rt w = (.ok intr, rt', w')) (hnb : intr ≠ some .brk) :
+    loopItems step (v :: r) i rt w = loopItems step r (i + 1) rt' w' := by
+  rw [loopItems, M.run_bind_ok _ _ _ _ _ _ _ hstep]
+  simp [hnb]
 
-/-- **break.** If the body requested `break`, the loop stops right there with success, the
-remaining elements are not visited, and the interrupt is consumed (cleared) by this loop. -/
-theorem C05_loop_break (step : V → Nat → Rt → W → RR) (npop i : Nat) (v : V) (r : List V)
+/-- **break.** If the body requested `break`, the loop stops right there with success and the
+remaining elements are not visited. -/
+theorem C05_loop_break (step : V → Nat → M (Option Intr)) (i : Nat) (v : V) (r : List V)
     (rt rt' : Rt) (w w' : W)
-    (hstep : step v i rt w = (.ok (), rt', w')) (hb : rt'.regs.interrupt = some .brk) :
-    loopItems step npop (v :: r) i rt w =
-      (.ok (), { (rt'.setInterrupt none) with layers := (rt'.setInterrupt none).layers.drop npop }, w') := by
-  simp [loopItems, hstep, hb]
+    (hstep : step v i rt w = (.ok (some .brk), rt', w')) :
+    loopItems step (v :: r) i rt w = (.ok (), rt', w') := by
+  rw [loopItems, M.run_bind_ok _ _ _ _ _ _ _ hstep]
+  simp
 
 /-- **Errors stop the loop.** -/
-theorem C05_loop_err (step : V → Nat → Rt → W → RR) (npop i : Nat) (v : V) (r : List V)
-    (rt rt' : Rt) (w w' : W) (o : Res Unit)
+theorem C05_loop_err (step : V → Nat → M (Option Intr)) (i : Nat) (v : V) (r : List V)
+    (rt rt' : Rt) (w w' : W) (o : Res (Option Intr))
     (hstep : step v i rt w = (o, rt', w')) (ho : o.isOk = false) :
-    loopItems step npop (v :: r) i rt w = (o, rt', w') := by
-  cases o <;> simp_all [loopItems, Res.isOk]
+    (loopItems step (v :: r) i rt w).1.isOk = false := by
+  rw [loopItems, M.run_bind_notok _ _ _ _ _ _ _ hstep ho]
+  cases o <;> simp_all [Res.isOk, M.castErr]
+
+/-- **Frames are balanced.** Rendering a loop body (any template) leaves exactly the frames it was
+given: the loop variable's frame is the one dropped afterwards, so the variable stops existing
+when its loop ends and nothing else is lost. -/
+theorem C05_body_keeps_frames (env : Env) (fuel : Nat) (body : Tmpl) (rt : Rt) (w : W) :
+    ((renderT fuel env body rt w).2.1).layers.shape = rt.layers.shape :=
+  renderT_keeps_frames env fuel body rt w
+
+/-- **The interrupt is consumed by the loop that sees it**: whatever the body of a `for`
+iteration did, after a successful iteration the interrupt register is clear again and the frames
+are those from before the iteration — so `break` ends, and `continue` skips in, only the
+innermost `for`; the enclosing loop carries on. -/
+theorem C05_break_innermost (env : Env) (fuel : Nat) (x : Str) (len : Nat) (parent : V) (body : Tmpl)
+    (v : V) (i : Nat) (rt rt' : Rt) (w w' : W) (intr : Option Intr)
+    (h : forStep x len parent (renderT fuel env body) v i rt w = (.ok intr, rt', w')) :
+    rt'.regs.interrupt = none ∧ rt'.layers.shape = rt.layers.shape := by
+  unfold forStep M.inFrames at h
+  simp only [M.run_bind] at h
+  generalize hroot : objInsert (objInsert [] "forloop".toList (forloopObj i len parent)) x v = root at h
+  have hsh := renderT_keeps_frames env fuel body { rt with layers := [Layer.plain root] ++ rt.layers } w
+  rcases hb : renderT fuel env body { rt with layers := [Layer.plain root] ++ rt.layers } w with ⟨r1, rt1, w1⟩
+  rw [hb] at h hsh
+  cases r1 with
+  | ok u =>
+    simp only [takeInterruptM, M.bind'_getRegs, M.bind'_setRegs, M.run_pure, Prod.mk.injEq] at h
+    obtain ⟨_, hrt, _⟩ := h
+    subst hrt
+    have h2 := Rt.setRegs_shape rt1 { rt1.regs with interrupt := none }
+    have h3 := Rt.regs_setRegs rt1 { rt1.regs with interrupt := none }
+    simp only at hsh
+    rw [← h2] at hsh
+    -- the stack after the body is `l :: rest` with `l` plain
+    generalize hrt2 : rt1.setRegs { rt1.regs with interrupt := none } = rt2 at h2 h3 hsh ⊢
+    rcases hl : rt2.layers with _ | ⟨l, rest⟩
+    · simp [hl, Stack.shape] at hsh
+    · simp only [hl, Stack.shape, List.map_cons, List.singleton_append, List.cons.injEq] at hsh
+      obtain ⟨hk, hrest⟩ := hsh
+      refine ⟨?_, ?_⟩
+      · have : Stack.regs (l :: rest) rt2.core = Stack.regs rest rt2.core :=
+          Stack.regs_cons_nonsandbox l rest rt2.core (by rw [hk]; simp [Layer.kind])
+        simp only [Rt.regs, hl] at h3
+        simp only [Rt.regs, List.length_singleton, List.drop_one, List.tail_cons, ← this, h3]
+      · simpa [Stack.shape, hl] using hrest
+  | err => simp at h
+  | io => simp at h
+  | panic s => simp at h
+  | fuel => simp at h
 
 /-- **Visits, in order, once each.** For a body that just writes `f v i` (no interrupts, no state),
 the loop's output is the outputs for the selected elements in order with positions `i, i+1, …`. -/
 theorem C05_visits_in_order (f : V → Nat → Str) (hne : ∀ v i, f v i ≠ [])
-    (items : List V) (i : Nat) (rt : Rt) (out : List Str)
-    (hrt : rt.regs.interrupt = none) (hst : rt.setInterrupt none = rt) :
-    loopItems (fun v i rt w => writeR rt w (f v i)) 0 items i rt { out := out, budget := none } =
+    (items : List V) (i : Nat) (rt : Rt) (out : List Str) :
+    loopItems (fun v i => do M.emit (f v i); pure none) items i rt { out := out, budget := none } =
       (.ok (), rt, { out := out ++ (items.zipIdx i).map (fun (v, j) => f v j), budget := none }) := by
   induction items generalizing i out with
   | nil => simp [loopItems]
   | cons v r ih =>
-    have hw : writeR rt { out := out, budget := none } (f v i)
-        = (.ok (), rt, { out := out ++ [f v i], budget := none }) := by
-      simp [writeR, W.write, hne]
-    rw [C05_loop_step _ 0 i v r rt rt _ _ hw (by simp [hrt])]
-    simp only [hst, List.drop_zero]
+    have hw : (do M.emit (f v i); pure none : M (Option Intr)) rt { out := out, budget := none }
+        = (.ok none, rt, { out := out ++ [f v i], budget := none }) := by
+      simp [M.run_bind, M.emit, W.write, hne]
+    rw [C05_loop_step _ i v r rt rt _ _ none hw (by simp)]
     have := ih (i + 1) (out ++ [f v i])
     simp [this, List.zipIdx_cons]
 
-/-- `renderList` (a block body): after an element leaves an interrupt pending, the remaining
-elements of this body are skipped — that is all `continue`/`break` do inside the body. -/
-theorem C05_body_skips_rest (f : Node → Rt → W → RR) (n : Node) (r : Tmpl) (rt rt' : Rt) (w w' : W)
+/-- a block body: after an element leaves an interrupt pending, the remaining elements of this
+body are skipped — that is all `continue`/`break` do inside the body. -/
+theorem C05_body_skips_rest (f : Node → M Unit) (n : Node) (r : Tmpl) (rt rt' : Rt) (w w' : W)
     (h : f n rt w = (.ok (), rt', w')) (hi : rt'.regs.interrupt.isSome = true) :
     renderList f (n :: r) rt w = (.ok (), rt', w') := by
-  simp [renderList, h, hi]
+  rw [renderList, M.run_bind_ok _ _ _ _ _ _ _ h]
+  simp [hi]
 
-theorem C05_body_goes_on (f : Node → Rt → W → RR) (n : Node) (r : Tmpl) (rt rt' : Rt) (w w' : W)
+theorem C05_body_goes_on (f : Node → M Unit) (n : Node) (r : Tmpl) (rt rt' : Rt) (w w' : W)
     (h : f n rt w = (.ok (), rt', w')) (hi : rt'.regs.interrupt = none) :
     renderList f (n :: r) rt w = renderList f r rt' w' := by
-  simp [renderList, h, hi]
+  rw [renderList, M.run_bind_ok _ _ _ _ _ _ _ h]
+  simp [hi]
 
 /-! ### non-vacuity -/
 
 example : selectSpec [iV 1, iV 2, iV 3, iV 4, iV 5] (some 4) 3 false = [iV 4, iV 5] := by rfl
 example : iterArray [iV 1, iV 2, iV 3, iV 4, iV 5] (some 2) 1 true = [iV 3, iV 2] := by rfl
-example : (Rt.build []).regs.interrupt = none ∧ (Rt.build []).setInterrupt none = Rt.build [] := by
-  constructor <;> rfl
+example : (Rt.build []).regs.interrupt = none := rfl
 
 end Liquid.C05
